@@ -962,10 +962,9 @@ impl BRC20ProgEngine {
         if current_block_height - latest_valid_block_number > MAX_REORG_HISTORY_SIZE {
             return Err("Latest valid block number is too far behind current block height".into());
         }
-        if latest_valid_block_number == current_block_height {
-            return Ok(());
-        }
-
+        // No shortcut when the target equals the current height: after a crash in the middle of an earlier
+        // reorg (or commit) the height may already be the target while rows of later blocks are still on
+        // disk; only the full pass removes them.
         self.db.write_fn(|db| db.reorg(latest_valid_block_number))
     }
 
